@@ -475,7 +475,12 @@ def oracle_ancillaries(ctx):
     lines, expect = [], []
     for n, anc in enumerate(cases):
         m = base_module(f"anc_model_{n}")
-        m.compute_ancillaries = (lambda a: (lambda fd: dict(a)))(anc)
+        # (the module's function may hand back more than it declares - helper entries, a fit-parameter name - and
+        #  in another order: only the declared keys, in declared order, are the model's ancillaries)
+        undeclared = {"helper_points": 17.0, "alpha": 3.0} if n % 2 else {}
+        if n % 4 == 1 and "R" not in anc:
+            undeclared["R"] = 5e-6
+        m.compute_ancillaries = (lambda a, u: (lambda fd: {**u, **dict(reversed(list(a.items())))}))(anc, undeclared)
         m.parameter_anc_keys = list(anc.keys())
         m.parameter_anc_names = ["Anc " + k for k in anc]
         m.parameter_anc_units = ["" for k in anc]
@@ -486,6 +491,30 @@ def oracle_ancillaries(ctx):
                 defaults = m.get_parameter_defaults()
                 p = idnt.get_initial_fit_parameters(model_key=m.model_key, common_ancillaries=False)
                 got = {k: p[k].value for k in p}
+                # the ancillary dictionary: common keys + exactly the declared own keys, in that order
+                idnt.fit_properties["model_key"] = m.model_key
+                akeys = list(md.compute_ancillaries(idnt).keys())
+                want_keys = list(md.get_anc_parm_keys())
+                if akeys != want_keys:
+                    ctx.violation("ancillary-dict-keys", f"compute_ancillaries returns the keys {akeys}; the model declares "
+                                  f"{want_keys} (common keys + its own, in order)",
+                                  {"input": {"declared": list(anc.keys()), "module_returns": list(undeclared) +
+                                             list(reversed(list(anc.keys())))}, "observed": akeys, "expected": want_keys})
+                # names and units: a fit-parameter key keeps the fit parameter's label and unit even when an
+                # ancillary of the same key exists; other ancillary keys carry their own
+                for kk in list(m.parameter_keys) + list(anc.keys()):
+                    if kk in m.parameter_keys:
+                        wn = m.parameter_names[m.parameter_keys.index(kk)]
+                        wu = m.parameter_units[m.parameter_keys.index(kk)]
+                    else:
+                        wn, wu = "Anc " + kk, ""
+                    gn, gu = md.get_parm_name(kk), md.get_parm_unit(kk)
+                    if (gn, gu) != (wn, wu) or (model.get_parm_name(m.model_key, kk), model.get_parm_unit(m.model_key, kk)) \
+                            != (wn, wu):
+                        ctx.violation(f"parameter-label:{kk}", f"name / unit of '{kk}' are reported as ({gn!r}, {gu!r}), the "
+                                      f"model declares ({wn!r}, {wu!r})", {"input": {"key": kk, "ancillary_keys": list(anc.keys())},
+                                                                          "observed": [gn, gu], "expected": [wn, wu]})
+                        break
             finally:
                 model.deregister_model(md)
                 idnt.fit_properties.clear()
